@@ -174,6 +174,66 @@ _BASE_INDEX = None
 _BASELINE_KEYS: set = set()
 
 
+def _child(conn, arg):
+    try:
+        import resource
+
+        lim = int(os.environ.get("VERIF_MUTANT_MEM_GB", "16")) << 30
+        try:
+            resource.setrlimit(resource.RLIMIT_AS, (lim, lim))
+        except Exception:
+            pass
+        out = _run_mutant(arg)
+    except BaseException:  # pragma: no cover
+        out = (f"#{arg[1]}", None, "error", traceback.format_exc()[-600:])
+    try:
+        conn.send(out)
+    finally:
+        conn.close()
+        os._exit(0)
+
+
+def _run_isolated(args, jobs, timeout):
+    """One forked process per self-test input (copy-on-write view of the parsed tree), at most `jobs` at a time.
+    Unlike Pool.map a worker that dies (OOM kill, crash) or overruns `timeout` seconds yields an 'error' result
+    for that input instead of hanging the whole self-test."""
+    import multiprocessing as mp
+    from multiprocessing.connection import wait
+
+    ctx = mp.get_context("fork")
+    pending = list(enumerate(args))
+    running = {}
+    results = [None] * len(args)
+    while pending or running:
+        while pending and len(running) < jobs:
+            i, a = pending.pop(0)
+            r, w = ctx.Pipe(duplex=False)
+            proc = ctx.Process(target=_child, args=(w, a))
+            proc.start()
+            w.close()
+            running[i] = (proc, r, time.time())
+        wait([r for (_p, r, _t) in running.values()], timeout=1.0)
+        for i, (proc, r, t0) in list(running.items()):
+            done = None
+            if r.poll():
+                try:
+                    done = r.recv()
+                except (EOFError, OSError):
+                    proc.join(5)
+                    done = (f"#{i}", None, "error", f"self-test worker died (exit code {proc.exitcode})")
+            elif not proc.is_alive():
+                done = (f"#{i}", None, "error", f"self-test worker died (exit code {proc.exitcode})")
+            elif time.time() - t0 > timeout:
+                proc.kill()
+                done = (f"#{i}", None, "error", f"self-test worker exceeded {timeout}s")
+            if done is not None:
+                results[i] = done
+                r.close()
+                proc.join(5)
+                del running[i]
+    return results
+
+
 def selftest(reg: Registry, root: str, jobs: int = int(os.environ.get("VERIF_JOBS", "8")), baseline_new=(), consulted=None):
     """Mutants/benign refactors are judged relative to the baseline run: a mutant must add a
     violation (rule, key) that the unchanged tree does not have; a benign refactor must add none."""
@@ -188,8 +248,7 @@ def selftest(reg: Registry, root: str, jobs: int = int(os.environ.get("VERIF_JOB
     gc.freeze()  # keep the parsed trees out of the children's GC passes (less copy-on-write)
     _BASELINE_KEYS = {(i.rule, i.key) for i in baseline_new}
     args = [(reg.prop, i, root) for i in range(len(reg.mutants) + len(_PATCH_MUTANTS))]
-    with mp.get_context("fork").Pool(min(jobs, len(args)), maxtasksperchild=1) as pool:
-        res = pool.map(_run_mutant, args, chunksize=1)
+    res = _run_isolated(args, min(jobs, len(args)), int(os.environ.get("VERIF_MUTANT_TIMEOUT", "1800")))
     _BASE_INDEX = None
     breaking = [r for r in res if r[1] is not None]
     benign = [r for r in res if r[1] is None and r[2] != "error"]
